@@ -79,7 +79,7 @@ func childStress(b run.Batch, r *ev.Result, rng *rand.Rand) {
 		// handler's critical sections all the time. A poll that is not answered
 		// within 8 s stops the round; the lock probe then decides.
 		var stalled atomic.Bool
-		var pollsDone, junkDone atomic.Int64
+		var pollsDone, junkDone, pollTimeouts atomic.Int64
 		polls := 120 + rng.Intn(60)
 		pollKeys := make([]string, polls)
 		for i := range pollKeys {
@@ -99,8 +99,10 @@ func childStress(b run.Batch, r *ev.Result, rng *rand.Rand) {
 			for i := 0; i < polls && !stalled.Load(); i++ {
 				resp, err := hc.Get(fmt.Sprintf("http://127.0.0.1:%d/api/v1/recent-reports?publicKey=%s", w.HTTP, pollKeys[i]))
 				if err != nil {
-					if isTimeout(err) {
+					if isTimeout(err) && !mutexSeenFree(w, 10*time.Second) {
 						stalled.Store(true)
+					} else if isTimeout(err) {
+						pollTimeouts.Add(1) // slow, not wedged: the mutex changes hands
 					}
 					continue
 				}
@@ -111,10 +113,10 @@ func childStress(b run.Batch, r *ev.Result, rng *rand.Rand) {
 		}()
 		go func() {
 			defer wg.Done()
-			for i := 0; pollsDone.Load() < int64(polls) && !stalled.Load() && i < 400000; i++ {
+			for i := 0; pollsDone.Load()+pollTimeouts.Load() < int64(polls) && !stalled.Load() && i < 400000; i++ {
 				udp.Write(junk[i%len(junk)])
-				if i%64 == 63 {
-					time.Sleep(200 * time.Microsecond)
+				if i%16 == 15 {
+					time.Sleep(500 * time.Microsecond)
 				}
 				junkDone.Add(1)
 			}
@@ -202,6 +204,7 @@ func childStress(b run.Batch, r *ev.Result, rng *rand.Rand) {
 		udp.Close()
 		r.Count("stress.unknown_key_polls_among_junk_datagrams", pollsDone.Load())
 		r.Count("stress.junk_datagrams_during_polls", junkDone.Load())
+		r.Count("stress.polls_slow_but_mutex_free", pollTimeouts.Load())
 		if stalled.Load() {
 			// unanswered poll: a held lock is a violation (decided by the lock probe inside live), anything else is not judged
 			drv.GateRotation(true)
@@ -268,4 +271,18 @@ func childStress(b run.Batch, r *ev.Result, rng *rand.Rand) {
 			w.born = time.Now()
 		}
 	}
+}
+
+// mutexSeenFree reports whether both server mutexes were seen free at least
+// once within d (a wedged server never shows its main mutex free again).
+func mutexSeenFree(w *world, d time.Duration) bool {
+	mainSeen, srvSeen := false, false
+	for t0 := time.Now(); time.Since(t0) < d; time.Sleep(5 * time.Millisecond) {
+		mf, sf := w.S.VerifTryLock()
+		mainSeen, srvSeen = mainSeen || mf, srvSeen || sf
+		if mainSeen && srvSeen {
+			return true
+		}
+	}
+	return false
 }
